@@ -28,6 +28,8 @@ TARGETS = [('block_token', 'Quote', 'start', 'bool', LINE), ('block_token', 'Par
            ('block_token', 'Footnote', 'start', 'bool', LINE), ('block_token', 'ThematicBreak', 'start', 'bool', LINE),
            ('block_token', 'List', 'start', 'bool', LINE), ('markdown_renderer', 'BlankLine', 'start', 'bool', LINE),
            ('block_token', 'Heading', 'start', 'state', LINE), ('block_token', 'CodeFence', 'start', 'state', LINE),
+           # HtmlBlock.start answers False or the rule number 1..7 and leaves _end_cond behind: option of (rule, _end_cond)
+           ('block_token', 'HtmlBlock', 'start', 'state', LINE),
            ('block_token', 'ListItem', 'parse_marker', 'option', LINE),
            ('block_token', 'ListItem', 'parse_continuation', 'option', LINE + [('prepend', 'prepend', 'Z')]),
            # check_interrupts_paragraph(lines) looks at lines.peek() only: a function of that line
@@ -74,6 +76,8 @@ class Tr:
             if isinstance(e.value, str):
                 return lit(e.value), 'str'
             self.fail(e, 'unknown constant')
+        if isinstance(e, ast.Attribute) and isinstance(e.value, ast.Name) and e.value.id == 'span_token' and e.attr == '_tags':
+            return 'html_tags', 'strlist'          # Gen/GenTables.v: regenerated from span_token._tags
         if isinstance(e, ast.Name):
             if e.id in self.env:
                 return self.env[e.id]
@@ -90,6 +94,17 @@ class Tr:
                 if s == 'str' and t.startswith('(gtxt '):
                     return t, 'str'
                 self.fail(e, "`or ''` on something that is not a match group")
+            if isinstance(e.op, ast.And) and len(e.values) == 2 and isinstance(e.values[0], ast.Compare) and len(e.values[0].ops) == 1 \
+                    and isinstance(e.values[0].ops[0], ast.IsNot) and isinstance(e.values[0].comparators[0], ast.Constant) \
+                    and e.values[0].comparators[0].value is None:
+                t, srt = self.expr(e.values[0].left)
+                if srt == 'match':
+                    saved = dict(self.some)
+                    self.some = dict(self.some)
+                    self.some[t] = 'm'
+                    second = self.truth(e.values[1])
+                    self.some = saved
+                    return '(match %s with Some m => %s | None => false end)' % (t, second), 'bool'
             op = ' && ' if isinstance(e.op, ast.And) else ' || '
             return '(' + op.join(self.truth(v) for v in e.values) + ')', 'bool'
         if isinstance(e, ast.UnaryOp) and isinstance(e.op, ast.Not):
@@ -173,6 +188,14 @@ class Tr:
                     if n == 0:
                         return '(pos %s)' % self.some[m], 'Z'
                     return '(match group_span %s %d with Some (_, b) => b | None => 0 end)' % (self.some[m], n), 'Z'
+                if f.attr == 'casefold' and not e.args:
+                    return '(casefold %s)' % self.sort(f.value, 'str'), 'str'
+                if f.attr == 'isupper' and not e.args:
+                    return '(is_upper_c %s)' % self.sort(f.value, 'Z'), 'bool'
+                if f.attr == 'format' and isinstance(f.value, ast.Constant) and isinstance(f.value.value, str) and f.value.value.count('{}') == 1 \
+                        and f.value.value.count('{') == 1 and f.value.value.count('}') == 1 and len(e.args) == 1:
+                    a, b = f.value.value.split('{}')
+                    return '(%s ++ %s ++ %s)' % (lit(a), self.sort(e.args[0], 'str'), lit(b)), 'str'
                 if f.attr == 'expandtabs' and len(e.args) == 1 and isinstance(e.args[0], ast.Constant) and e.args[0].value == 4:
                     return '(expandtabs4 %s)' % self.sort(f.value, 'str'), 'str'
                 if f.attr == 'isdigit' and not e.args:      # on a character a \\d of the pattern matched
@@ -217,7 +240,11 @@ class Tr:
             if not self.state:
                 raise Unknown('%s: returns True without having written a class attribute' % self.where)
             return 'Some (%s)' % ', '.join(self.env['cls_' + a][0] for a in self.state)
-        self.fail(value, 'a stateful start returns something other than True / False')
+        if isinstance(value, ast.Constant) and isinstance(value.value, int) and not isinstance(value.value, bool) and value.value > 0:
+            if not self.state:
+                raise Unknown('%s: returns a rule number without having written a class attribute' % self.where)
+            return 'Some (%d, %s)' % (value.value, ', '.join(self.env['cls_' + a][0] for a in self.state))
+        self.fail(value, 'a stateful start returns something other than True / False / a positive rule number')
 
     def block(self, stmts, k=None):
         if not stmts:
@@ -238,6 +265,18 @@ class Tr:
                 mexpr = test.left
             elif isinstance(test, ast.UnaryOp) and isinstance(test.op, ast.Not):
                 mexpr = test.operand
+            if isinstance(test, ast.Compare) and len(test.ops) == 1 and isinstance(test.ops[0], ast.IsNot) and not st.orelse \
+                    and isinstance(test.comparators[0], ast.Constant) and test.comparators[0].value is None:
+                t, srt = self.expr(test.left)
+                if srt == 'match':
+                    saved_env, saved_some, saved_state = dict(self.env), dict(self.some), list(self.state)
+                    self.some = dict(self.some)
+                    self.some[t] = 'm'
+                    some_branch = self.block(st.body, (rest, k))
+                    self.env, self.some, self.state = dict(saved_env), dict(saved_some), list(saved_state)
+                    none_branch = self.block(rest, k)
+                    self.env, self.some, self.state = saved_env, saved_some, saved_state
+                    return '(match %s with Some m => %s | None => %s end)' % (t, some_branch, none_branch)
             if mexpr is not None and not st.orelse:
                 t, s = self.expr(mexpr)
                 if s == 'match':
@@ -311,9 +350,9 @@ class Tr:
         if isinstance(st, ast.Assign) and len(st.targets) == 1:
             tgt = st.targets[0]
             if isinstance(tgt, ast.Name):
-                if tgt.id in self.env:
-                    raise Unknown('%s: local %s assigned twice' % (self.where, tgt.id))
                 t, s = self.expr(st.value)
+                if tgt.id in self.env and not (s == 'match' and self.env[tgt.id][1] == 'match'):      # a match local may be bound anew
+                    raise Unknown('%s: local %s assigned twice' % (self.where, tgt.id))
                 keep = s == 'match' or s.startswith('option:')                     # kept as its expression until it is tested
                 self.env[tgt.id] = (t, s) if keep else (tgt.id, s)
                 if keep:
@@ -323,7 +362,13 @@ class Tr:
                 if self.kind != 'state':
                     raise Unknown('%s: writes class attribute %s' % (self.where, tgt.attr))
                 nm = 'cls_' + tgt.attr
-                t, s = self.expr(st.value)
+                if tgt.attr == '_end_cond':                     # a string or None: option str
+                    if isinstance(st.value, ast.Constant) and st.value.value is None:
+                        t, s = 'None', 'optstr'
+                    else:
+                        t, s = 'Some ' + self.sort(st.value, 'str'), 'optstr'
+                else:
+                    t, s = self.expr(st.value)
                 if nm in self.env and self.env[nm][1] != s:
                     self.fail(st.value, 'class attribute changes sort')
                 if tgt.attr not in self.state:
@@ -369,7 +414,7 @@ def generate():
     trees = {}
     out = ['(* GENERATED from mistletoe/block_token.py and markdown_renderer.py by harness/gen/gen_blockstart.py -- do not edit *)',
            'From Coq Require Import ZArith List Bool.',
-           'From Mistletoe Require Import Base.Sx Base.PyStr Base.PyText Re.ReMatch Gen.GenRegex Model.Block.',
+           'From Mistletoe Require Import Base.Sx Base.PyStr Base.PyText Re.ReMatch Gen.GenTables Gen.GenRegex Model.Block.',
            'Import ListNotations.', 'Local Open Scope Z_scope.', '']
     done = {}
     for module, cls, meth, kind, params in TARGETS:
